@@ -40,4 +40,44 @@ def run_family(fam, cases, label=None):
             res["mismatches"].append({"case": c, "model": m, "impl": i, "request": req})
     res["nontrivial_distinct"] = len(seen)
     res["histogram"] = dict(hist)
+    res["extraction_crosscheck"] = xcheck_extraction(res["family"], list(zip(reqs, outs)))
+    if res["extraction_crosscheck"].get("ok") is False:
+        res["model_error"] = "extracted driver and vm_compute disagree: " + str(res["extraction_crosscheck"].get("detail"))
     return res
+
+
+def xcheck_extraction(label, pairs, k=20):
+    """re-evaluate a sample of the requests inside Coq with vm_compute and require the same responses as the
+    extracted OCaml driver gave (guards the extraction path)"""
+    import os
+    import subprocess
+    from common import COQ, BUILD
+    safe = [(r, o) for r, o in pairs if len(r) < 1500 and len(o) < 1500 and '"' not in r and '"' not in o]
+    if not safe:
+        return {"n": 0, "ok": None}
+    step = max(1, len(safe) // k)
+    sample = safe[::step][:k]
+    lit = lambda s: 'L "%s"' % s  # noqa: E731  (requests/responses are parentheses, spaces, [A-Za-z0-9_.+-] only)
+    src = ["From Coq Require Import List. Import ListNotations.", "From Coq Require String. Import String.StringSyntax.",
+           "From DT Require Import PyStr AllRun.",
+           "Fixpoint all2 (a b : list str) : bool := match a, b with [], [] => true | x :: a', y :: b' => andb (str_eqb x y) (all2 a' b') | _, _ => false end.",
+           "Definition reqs : list str := [%s]." % "; ".join(lit(r) for r, _ in sample),
+           "Definition outs : list str := [%s]." % "; ".join(lit(o) for _, o in sample),
+           "Goal all2 (map handle_all reqs) outs = true. Proof. vm_compute. reflexivity. Qed."]
+    path = os.path.join(BUILD, "xcheck_%s_%d.v" % ("".join(c for c in label if c.isalnum()), os.getpid()))
+    try:
+        with open(path, "w") as f:
+            f.write("\n".join(src) + "\n")
+        p = subprocess.run(["timeout", "300", "coqc", "-Q", COQ, "DT", path], cwd=BUILD, stdout=subprocess.PIPE, stderr=subprocess.STDOUT)
+        ok = p.returncode == 0
+        return {"n": len(sample), "ok": ok, "detail": None if ok else p.stdout.decode()[-400:]}
+    finally:
+        for ext in (".v", ".vo", ".vok", ".vos", ".glob"):
+            try:
+                os.remove(path[:-2] + ext)
+            except OSError:
+                pass
+        try:
+            os.remove(os.path.join(BUILD, "." + os.path.basename(path)[:-2] + ".aux"))
+        except OSError:
+            pass
